@@ -24,6 +24,38 @@ EXPLAIN = ("R-OWN raise sites of ConnectionUp/ConnectionDown and writers of the 
            "necessary conditions, not arbitrary interleavings of replies or socket-level loss points.")
 OF = 'openflow.of_01'
 
+def current_table_dispatch (ctx, repo, mod, con, clause):
+  """shared with C02 (what a message is delivered to must not depend on which read() it arrived in)"""
+  # the handshake ends by re-binding con.handlers; messages that follow the barrier reply in the same read must already be
+  # dispatched through the new table, so the read loop fetches the table from the connection for every message
+  rd = con.methods.get('read')
+  rebinds = [(f_, st_) for c_ in mod.classes.values() for f_ in c_.methods.values() for t_, v_, st_, k_ in q.stores_in(f_.node)
+             if isinstance(t_, ast.Attribute) and t_.attr == 'handlers' and f_.name != '__init__']
+  if rd is not None and rebinds:
+    ctx.analysed(rd); gr = q.cfg_of(rd)
+    loops_ = [(st_, h_, a_) for st_, h_, a_ in gr.loop_nodes]
+    n_tbl = 0
+    for n in gr.nodes:
+      if n.ast is None or n.kind in ('def', 'branch', 'handler', 'join', 'for'): continue
+      lp = [(st_, h_) for st_, h_, a_ in loops_ if n in gr.loop_body_nodes(h_)]
+      if not lp: continue
+      for x in (walk_no_nested(n.ast) if not isinstance(n.ast, (ast.For, ast.While, ast.If, ast.With, ast.Try)) else []):
+        if not (isinstance(x, ast.Subscript) and isinstance(x.ctx, ast.Load)): continue
+        if isinstance(x.value, ast.Attribute) and x.value.attr == 'handlers' and norm(x.value.value) == 'self':
+          n_tbl += 1
+          ctx.ob('R-ORDER', rd, "each message is dispatched through the connection's current handler table", True, "self.handlers read inside the loop", (mod, x), clause); continue
+        if isinstance(x.value, ast.Name):
+          pv = q.provenance(gr, n, x.value.id)
+          from_tbl = [(d_, kind, val) for d_, kind, val in pv if val is not None and isinstance(val, ast.Attribute) and val.attr == 'handlers' and norm(val.value) == 'self']
+          if not from_tbl: continue
+          n_tbl += 1
+          body = gr.loop_body_nodes(lp[0][1])
+          stale = [d_ for d_, kind, val in from_tbl if d_ not in body]
+          ctx.ob('R-ORDER', rd, "each message is dispatched through the connection's current handler table", not stale, "table fetched per message" if not stale else
+                 "`%s` is taken from self.handlers once, before the loop (`%s`), but %s re-binds con.handlers when the handshake completes (`%s`): messages that share a read with the barrier reply are still dispatched to the handshake handlers - "
+                 "a port status or packet-in right after the handshake is lost, a second barrier reply raises ConnectionUp again" % (x.value.id, stale[0].text(40), rebinds[0][0].name, norm(rebinds[0][1])[:50]), (mod, x), clause)
+    ctx.floor('handler-table dispatch sites in read()', n_tbl, 1)
+
 def run (ctx):
   ctx.explanation = EXPLAIN
   ctx.assumptions = ["events are raised only through raiseEvent/raiseEventNoErrors", "handler tables are built from handle_<NAME> methods (OpenFlowHandlers._build_table)"]
@@ -50,35 +82,7 @@ def run (ctx):
   disc = q.find_method(repo, con, 'disconnect', 'C09'); ctx.analysed(disc)
   for f, c in downs:
     ctx.ob('R-OWN', f, "ConnectionDown is raised only by Connection.disconnect (`%s`)" % norm(c.func), f is disc, "in disconnect" if f is disc else "%s raises ConnectionDown" % f.qual, (f.module, c), 'D4')
-  # the handshake ends by re-binding con.handlers; messages that follow the barrier reply in the same read must already be
-  # dispatched through the new table, so the read loop fetches the table from the connection for every message
-  rd = con.methods.get('read')
-  rebinds = [(f_, st_) for c_ in mod.classes.values() for f_ in c_.methods.values() for t_, v_, st_, k_ in q.stores_in(f_.node)
-             if isinstance(t_, ast.Attribute) and t_.attr == 'handlers' and f_.name != '__init__']
-  if rd is not None and rebinds:
-    ctx.analysed(rd); gr = q.cfg_of(rd)
-    loops_ = [(st_, h_, a_) for st_, h_, a_ in gr.loop_nodes]
-    n_tbl = 0
-    for n in gr.nodes:
-      if n.ast is None or n.kind in ('def', 'branch', 'handler', 'join', 'for'): continue
-      lp = [(st_, h_) for st_, h_, a_ in loops_ if n in gr.loop_body_nodes(h_)]
-      if not lp: continue
-      for x in (walk_no_nested(n.ast) if not isinstance(n.ast, (ast.For, ast.While, ast.If, ast.With, ast.Try)) else []):
-        if not (isinstance(x, ast.Subscript) and isinstance(x.ctx, ast.Load)): continue
-        if isinstance(x.value, ast.Attribute) and x.value.attr == 'handlers' and norm(x.value.value) == 'self':
-          n_tbl += 1
-          ctx.ob('R-ORDER', rd, "each message is dispatched through the connection's current handler table", True, "self.handlers read inside the loop", (mod, x), 'D3'); continue
-        if isinstance(x.value, ast.Name):
-          pv = q.provenance(gr, n, x.value.id)
-          from_tbl = [(d_, kind, val) for d_, kind, val in pv if val is not None and isinstance(val, ast.Attribute) and val.attr == 'handlers' and norm(val.value) == 'self']
-          if not from_tbl: continue
-          n_tbl += 1
-          body = gr.loop_body_nodes(lp[0][1])
-          stale = [d_ for d_, kind, val in from_tbl if d_ not in body]
-          ctx.ob('R-ORDER', rd, "each message is dispatched through the connection's current handler table", not stale, "table fetched per message" if not stale else
-                 "`%s` is taken from self.handlers once, before the loop (`%s`), but %s re-binds con.handlers when the handshake completes (`%s`): messages that share a read with the barrier reply are still dispatched to the handshake handlers - "
-                 "a port status or packet-in right after the handshake is lost, a second barrier reply raises ConnectionUp again" % (x.value.id, stale[0].text(40), rebinds[0][0].name, norm(rebinds[0][1])[:50]), (mod, x), 'D3')
-    ctx.floor('handler-table dispatch sites in read()', n_tbl, 1)
+  current_table_dispatch(ctx, repo, mod, con, 'D3')
   # ---- D1 callers of _finish_connecting --------------------------------------------------
   callers = []
   for m in (mod, nmod):
@@ -349,4 +353,15 @@ def disconnect_states (ctx, repo, mod, con, disc, dn, clause):
     ctx.ob('R-ONCE', disc, "disconnect with disconnected=%s raised=%s defer_event=%s -> ConnectionDown %s" % (was, raised, defer, 'raised' if want else 'not raised'), good,
            "as required" if good else ("ConnectionDown is unreachable in this state: a loss first noticed with the event deferred (failing send) is never announced - "
            "listeners keep a dead connection" if want else "ConnectionDown reachable although it must not be raised (again)"), disc, clause)
+  # the once-flag and the event go together: a path that sets `disconnection_raised` without raising ConnectionDown uses up the
+  # one chance - no later disconnect()/close() raises it
+  flags = [q.enclosing_stmt_node(g, st) for t, v, st, k in q.stores_in(disc.node) if isinstance(t, ast.Attribute) and t.attr == 'disconnection_raised' and norm(t.value) == 'self'
+           and v is not None and isinstance(v, ast.Constant) and v.value is True]
+  flags = [f_ for f_ in flags if f_ is not None]
+  for f_ in flags:
+    if not dn: continue
+    holds = all(g.dominates(d, f_, exc=False) for d in dn) or q.must_pass_under(repo, mod, g, q.Env(), [d for d in dn if not g.dominates(d, f_, exc=False)], con, start=f_)[0]
+    ctx.ob('R-EFFECT', disc, "the once-flag is set only on paths that raise ConnectionDown", holds, "flag and event on the same paths" if holds else
+           "`self.disconnection_raised = True` is followed by a path that raises no ConnectionDown (facts at the raise: %s): the connection is marked as announced-down without anybody having been told - "
+           "if listeners did hear ConnectionUp (e.g. a ConnectionUp handler that disconnects: earlier listeners have been called already) they never hear ConnectionDown" % q.fact_strs(g, dn[0])[-2:], (mod, f_.ast), clause)
 
